@@ -103,6 +103,7 @@ def setup():
         return 1
     try:
         C.build_monitor("c17_conc", hooks=False)
+        C.build_monitor("c14", release_unchecked=True)
         mt = os.path.join(C.BUILD, "miri")
         lane_c16.miri(C.HARNESS, mt, "c16_miri", ["terminal", "2"])
         lane_c16.miri(C.HARNESS, mt, "c17_conc", ["2", "2"])
@@ -210,9 +211,11 @@ PROPS = {
                      "combined read is checked against the same terminal's own state and command reads taken just before; both Datum.time and TerminalData.time must carry the state's stamp when there is one"],
     ),
     "C14": dict(
-        quick_scale=4, thorough_scale=20, run=native_both_profiles, level=EXPL, technique="f64 reference with forward error bound for the kinematics; exact canonical-bit comparison against plain f32 operators for arithmetic and conversions; exhaustive enumeration of unit, zero-pattern and kind-pair tables; panic capture for the iff-panic clauses",
+        quick_scale=4, thorough_scale=5, run=native_three_profiles, level=EXPL, technique="f64 reference with forward error bound for the kinematics; exact canonical-bit comparison against plain f32 operators for arithmetic and conversions; exhaustive enumeration of unit, zero-pattern and kind-pair tables; panic capture for the iff-panic clauses",
         rule="eight sub-checks, each case a pure function of (seed, stream, case): update (states with 20% +-0 per component, moderate and wide magnitudes, dt stratified in +-1e5 s incl. 0, +-1 ns), update-extreme (any finite triple), setters (49 grid units x 3 Quantity setters + raw setters), state-new (3 slots x 49 units), from-state (all 4^3 patterns of {+0,-0,>0,<0}), cmd-conv, state-arith, cmd-arith (3x3 kind pairs x 9 operator forms); distinct by (sub-check, zero/sign pattern, sign and decade of dt, unit, kind pair)",
-        assumptions=["dimension checking compiled in (debug build)",
+        assumptions=["third lane release-unchecked (dimension checking compiled out, detected at run time and cross-checked against size_of::<Unit>()): the wrong-unit rejection / panic clauses are not applied there, every correctly dimensioned setter argument must still be accepted with its documented effect",
+                     "op-matrix: all 52 operator impls touching State, Command, Datum<State>, Datum<Command> (table OP_IMPLS, read off the source) against the plain f32 operator component-wise, binary vs assign siblings, mixed command kinds panic also inside a Datum",
+                     "dimension checking compiled in (debug build)",
                      "kinematics reference judged with bound 32*2^-24*sum|terms| plus the i64-ns -> f32-seconds conversion rounding; dt = 0 is the identity on canonical bits (-0 == +0)",
                      "'lowest non-zero derivative' follows the crate's tests and accessor table: acceleration if non-zero, else velocity if non-zero, else position",
                      "in update-extreme (any finite triple) a non-finite result where the true result is representable is a violation; the overflow of intermediates when some term exceeds 1e37 is a listed known finding"],
